@@ -93,5 +93,8 @@ def run(ctx, rule="CONTROL"):
     pm = PyMod("controls_py", fx)
     got = {qn: [k for k, _, _ in lib_kind3.py_function_lints(pm, qn, fn)] for qn, fn in pm.funcs.items()}
     want = {"late_binding": ["late-binding"], "early_binding": [], "mutable_default": ["mutable-default"], "swallowed": ["swallowed-exception"],
-            "iterator_reuse": ["iterator-reuse"], "iterator_once": []}
+            "iterator_reuse": ["iterator-reuse"], "iterator_once": [], "or_default": ["or-default"], "none_default": [],
+            "unused_loop_variable": ["unused-loop-variable"], "where_tuple": ["where-tuple"], "where_array": [],
+            "inplace_view": ["inplace-foreign"], "inplace_copy": [], "inplace_param": ["inplace-foreign"],
+            "tree_reuse": ["tree-reuse"], "tree_copy": [], "set_order": ["set-order"], "sorted_set": []}
     ctx.ob(rule, "py-slips", got == want, fx, "python slip lints on the fixture: %s" % got)
